@@ -13,7 +13,7 @@ use sha2::{Digest, Sha256};
 #[derive(Clone, Debug, PartialEq, Eq)]
 pub enum Ev {
     Absorb { len: usize, dig: u64 },
-    SqBytes { n: usize, dig: u64 },
+    SqBytes { n: usize, dig: u64, bytes: Vec<u8> },
     SqBits { n: usize },
     SqFe { sizes: Vec<u16>, dig: u64, vals: Vec<Vec<u8>> },
 }
@@ -65,6 +65,10 @@ impl<S: CryptographicSponge> RecSponge<S> {
         }
         out
     }
+    /// All byte strings squeezed so far, in order.
+    pub fn squeezed_bytes(&self) -> Vec<Vec<u8>> {
+        self.log.iter().filter_map(|e| if let Ev::SqBytes { bytes, .. } = e { Some(bytes.clone()) } else { None }).collect()
+    }
     pub fn n_absorbs(&self) -> usize {
         self.log.len() - self.n_squeezes()
     }
@@ -85,7 +89,7 @@ impl<S: CryptographicSponge> CryptographicSponge for RecSponge<S> {
 
     fn squeeze_bytes(&mut self, num_bytes: usize) -> Vec<u8> {
         let out = self.inner.squeeze_bytes(num_bytes);
-        self.log.push(Ev::SqBytes { n: num_bytes, dig: dig64(&out) });
+        self.log.push(Ev::SqBytes { n: num_bytes, dig: dig64(&out), bytes: out.clone() });
         out
     }
 
